@@ -41,3 +41,9 @@ EDITS = [
     {"id": "max-without-keys", "expect": "silent", "file": RI,
      "old": "        reference_index = max(zeta_mapping.keys())", "new": "        reference_index = max(zeta_mapping)"},
 ]
+
+EDITS += [
+    {"id": "dispatch-helper-without-handler", "expect": "silent",
+     "patch": "seeded/C20-dispatch-helper-swallows-valueerror/patch.diff"},
+]
+
